@@ -346,6 +346,16 @@ def rule_MP6(rep, prog, q):
     poke = calls_named(fn, ("_dispatch_root_queue_poke",))
     rep.require(rid, bool(poke), fn.file, fn.name, "drain-one-repoke",
                 "_dispatch_root_queue_drain_one must re-poke the root queue when it leaves more items behind", sample={"pokes": len(poke)})
+    # every way of leaving a successor in dq_items_head (any store of a value that is not the constant NULL / mediator) is followed by the poke
+    heads = [st for st in fn.all_insts() if st.op == "store" and "dq_items_head" in prog.fields(st) and st.ops[0][0] not in ("c", "n", "ce")]
+    if not heads:
+        rep.unknown(rid, "no store of a successor to dq_items_head in _dispatch_root_queue_drain_one")
+    for st in heads:
+        ok = bool(poke) and fn.must_pass(st, poke)[0]
+        rep.require(rid, ok, st.loc, fn.name, "drain-one-successor-without-poke",
+                    "_dispatch_root_queue_drain_one publishes a successor as the new head and can return without _dispatch_root_queue_poke: when the popped "
+                    "item looked last but an appender won the tail race, neither side requests a worker and the appended item waits for an unrelated poke",
+                    sample={"store": st.loc})
     fn = prog.fn("_dispatch_root_queue_poke")
     rep.saw(fn)
     probe = [i for i in fn.all_insts() if i.op == "call" and i.callee == "_dispatch_queue_class_probe"] + \
@@ -483,6 +493,14 @@ def run(rep, tier="quick", srcdir=None, only=None):
         # queues chained through target queues: the level-by-level acquire/release discipline (shared with C03)
         from . import C03
         C03.rule_MP2(rep, prog, q)
+    if want("C03-MP8"):
+        # width borrowed by a redirected item is returned on every level (shared with C03): a leaked unit strands later barriers / items
+        from . import C03
+        C03.rule_MP8(rep, prog, q)
+    if want("C04-MP4"):
+        # the last reader's hand-over: DIRTY when drain-locked, otherwise take over / enqueue (shared with C04)
+        from . import C04
+        C04.rule_MP4(rep, prog, q, ts)
     if want("C05-WR3"):
         # sync callers are released only by a real hand-off (shared with C05)
         from . import C05
